@@ -24,6 +24,7 @@ mod replay_print;
 mod replay_session;
 mod rec_conealg;
 mod rec_conebarrier;
+mod rec_direction;
 
 use rand::rngs::StdRng;
 use rand::{Rng, SeedableRng};
@@ -274,6 +275,18 @@ fn main() {
             let e = if v.get("vi").map(|x| x.is_array()).unwrap_or(false) { rec_conebarrier::lattice_event(0, &c, &gi("p"), v["q"].as_i64().unwrap(), &gi("vi")) }
                     else if v.get("v").map(|x| x.is_array()).unwrap_or(false) { rec_conebarrier::membership_event(0, &c, &g("v")) } else { rec_conebarrier::event(0, &c, &g("s"), &g("z"), &g("ds"), &g("dz"), v.get("family").and_then(|x| x.as_str()).unwrap_or("calculus")) };
             write_lines(&args.get("out", "conebarrier.ndjson"), &[e]);
+        }
+        "direction" => {
+            let (lines, cases, meta) = rec_direction::lines(args.num("seed", 1), args.num("count", 300) as usize);
+            write_lines(&args.get("out", "direction.ndjson"), &lines);
+            write_lines(&args.get("cases", "direction.cases.ndjson"), &cases);
+            println!("{}", meta);
+        }
+        "direction-replay" => {
+            let v = load_case(&args);
+            let p: problem::Problem = serde_json::from_value(v["problem"].clone()).unwrap();
+            let (lines, _) = rec_direction::run_one(v["run"].as_u64().unwrap_or(0) as usize, &p);
+            write_lines(&args.get("out", "direction.ndjson"), &lines);
         }
         "vecmath" => {
             let lines = rec_vec::record(args.num("seed", 1), args.get("tier", "quick") == "thorough");
